@@ -1,13 +1,26 @@
 /-
   C19 — Transport faults are contained: no foreign results, and the proxy recovers.
 
-  Model: JRV.Model.Transport.  The theorems are about the library's logic (two attempts on
-  disconnect-class errors, close-on-error, drain-when-length, empty body ⇒ None) *given* the environment
-  model of http.client and the peer stated in the model file; that environment model is what the scripted
-  raw-socket correspondence validates.  Labelled partial for that reason (kernel RST/FIN timing).
+  Model: JRV.Model.Transport.  The theorems are about the library's logic (two attempts on disconnect-class
+  errors, close-on-error, the `status == 200` test, drain-when-length, empty body ⇒ None) *given* the environment
+  model of http.client, the peer and the kernel stated in the model file; that environment model is what the
+  scripted raw-socket correspondence validates (harness/props/c19.py).  They hold for every value of the two
+  `Lib` switches (draining or not, closing or not when no length is announced).
+
+  What carries which claim:
+    * "TransportError carrying the status for every non-200 reply" (`C19_transport_error`) and the recovery
+      bound (`C19_recovery*`) are library logic: the `== 200` test, close-on-error, the retry of `request`.
+    * "never a stale or foreign result" is, for the faults of the property's alphabet, carried by the environment:
+      http.client frames replies by Content-Length, discards read-ahead with the response and refuses to read a
+      new response while one is unread.  The library adds one thing, visible in the model: unread bytes that do not
+      parse make the next use fail and close-on-error then drops *everything* unread with the connection — so a
+      complete foreign reply hidden behind such bytes (`statusLongLate _ (some k)`) is never returned.  Those
+      theorems are therefore named `_partial`, and `C19_full_statement` says what is not true of the library:
+      it does not compare reply ids, so a peer that breaks HTTP framing by sending a complete unsolicited reply
+      after the answer (`okThenLate`, outside the property's fault alphabet) makes the next call on that
+      connection return it (`C19_unsolicited_reply_is_returned`, reproduced on real sockets by the harness).
 -/
 import JRV.Model.Transport
-import JRV.Generated
 
 set_option linter.unusedSimpArgs false
 
@@ -16,138 +29,386 @@ open JRV.Transport
 
 /- ---------- helpers ---------- -/
 
-private theorem exchange_spec (c : Conn) (tok : Nat) (b : Beh) (hc : c.inbound = []) :
-    (∀ o c', exchange c tok b = .done o c' → Cache.clean c' = true ∧ (∀ t, o = .result t → t = tok)) := by
-  intro o c' h
-  cases b <;> simp_all [exchange, Cache.clean]
-  all_goals (try (obtain ⟨rfl, rfl⟩ := h; simp [Cache.clean, hc]))
+private theorem safe_parts (c : Conn) (h : c.safe = true) :
+    c.desync = false ∧ (c.inbound = [] ∨ ∃ rest, c.inbound = .junk :: rest) := by
+  unfold Conn.safe at h
+  cases hd : c.desync <;> simp [hd] at h
+  cases hi : c.inbound with
+  | nil => simp
+  | cons x rest => cases x <;> simp_all
 
-private theorem attempt_spec (cache : Cache) (tok : Nat) (bs : List Beh) (hc : Cache.clean cache = true) :
-    ∀ o c' bs', attempt cache tok bs = (.done o c', bs') →
-      Cache.clean c' = true ∧ (∀ t, o = .result t → t = tok) := by
+private theorem afterLength_safe (lib : Lib) (c : Conn) (h : c.safe = true) : Cache.safe (afterLength lib c) = true := by
+  unfold afterLength
+  cases lib.drain <;> simpa [Cache.safe, Conn.safe] using h
+
+private theorem exchange_spec (lib : Lib) (c : Conn) (tok : Nat) (b : Beh) (hc : c.safe = true) (hb : b.framed = true) :
+    ∀ o c', exchange lib c tok b = .done o c' →
+      Cache.safe c' = true ∧ (∀ t, o = .result t → t = tok) ∧ o ≠ .other "Unmodelled" := by
+  intro o c' h
+  obtain ⟨hd, hi⟩ := safe_parts c hc
+  rcases hi with hi | ⟨rest, hi⟩
+  · have hal := afterLength_safe lib c hc
+    have hcs : Cache.safe (some c) = true := hc
+    have hst : Cache.safe (some { c with stale := true }) = true := by simpa [Cache.safe, Conn.safe] using hc
+    cases b <;> simp only [exchange, hi] at h
+    case okThenLate => simp [Beh.framed] at hb
+    case status code len body =>
+      cases len <;> simp only [Att.done.injEq] at h <;> obtain ⟨rfl, rfl⟩ := h
+      · exact ⟨rfl, by simp, by simp⟩
+      · exact ⟨hal, by simp, by simp⟩
+    case bodiless nm len =>
+      cases len <;> simp only [Att.done.injEq] at h <;> obtain ⟨rfl, rfl⟩ := h
+      · refine ⟨?_, by simp, by simp⟩
+        cases lib.closeNoLen <;> simp [Cache.safe, Conn.safe, hd, hi]
+      · exact ⟨hal, by simp, by simp⟩
+    case statusLongNow code =>
+      simp only [Att.done.injEq] at h
+      obtain ⟨rfl, rfl⟩ := h
+      exact ⟨hal, by simp, by simp⟩
+    case statusLongLate code r =>
+      simp only [Att.done.injEq] at h
+      obtain ⟨rfl, rfl⟩ := h
+      refine ⟨?_, by simp, by simp⟩
+      unfold afterLength
+      cases lib.drain <;> simp [Cache.safe, Conn.safe, hd]
+    all_goals first
+      | (simp at h; done)
+      | (simp only [Att.done.injEq] at h; obtain ⟨rfl, rfl⟩ := h
+         first
+           | exact ⟨hcs, by simp, by simp⟩
+           | exact ⟨hst, by simp, by simp⟩
+           | (refine ⟨?_, by simp, by simp⟩; simp [Cache.safe, Conn.safe, hd]))
+  · simp only [exchange, hi, Att.done.injEq] at h
+    obtain ⟨rfl, rfl⟩ := h
+    simp [Cache.safe]
+
+private theorem fresh_safe : Conn.safe {} = true := by decide
+
+private theorem attempt_spec (lib : Lib) (cache : Cache) (tok : Nat) (bs : List Beh)
+    (hc : Cache.safe cache = true) (hbs : bs.all Beh.framed = true) :
+    ∀ o c' bs', attempt lib cache tok bs = (.done o c', bs') →
+      Cache.safe c' = true ∧ (∀ t, o = .result t → t = tok) ∧ o ≠ .other "Unmodelled" := by
   intro o c' bs' h
   cases cache with
   | none =>
     cases bs with
     | nil =>
       simp only [attempt, Prod.mk.injEq] at h
-      exact exchange_spec {} tok .okKeep rfl o c' h.1
+      exact exchange_spec lib {} tok .okKeep fresh_safe rfl o c' h.1
     | cons b rest =>
+      have hb : b.framed = true := by simp only [List.all_cons, Bool.and_eq_true] at hbs; exact hbs.1
       cases b <;> simp only [attempt, Prod.mk.injEq] at h
-      all_goals first
-        | exact exchange_spec {} tok _ rfl o c' h.1
-        | (obtain ⟨h1, _⟩ := h; cases h1; simp [Cache.clean])
+      case down => obtain ⟨h1, _⟩ := h; cases h1; simp [Cache.safe]
+      all_goals exact exchange_spec lib {} tok _ fresh_safe hb o c' h.1
   | some c =>
-    have hin : c.inbound = [] := by simpa [Cache.clean] using hc
-    simp only [attempt] at h
+    have hcs : c.safe = true := hc
+    obtain ⟨hd, _⟩ := safe_parts c hcs
+    simp only [attempt, hd, Bool.false_eq_true, ↓reduceIte] at h
     split at h
     · simp at h
     · split at h
-      · simp only [Prod.mk.injEq] at h; obtain ⟨h1, _⟩ := h; cases h1; simp [Cache.clean]
+      · simp only [Prod.mk.injEq] at h; obtain ⟨h1, _⟩ := h; cases h1; simp [Cache.safe]
       · cases bs with
-        | nil => simp only [Prod.mk.injEq] at h; exact exchange_spec c tok .okKeep hin o c' h.1
-        | cons b rest => simp only [Prod.mk.injEq] at h; exact exchange_spec c tok b hin o c' h.1
+        | nil => simp only [Prod.mk.injEq] at h; exact exchange_spec lib c tok .okKeep hcs rfl o c' h.1
+        | cons b rest =>
+          have hb : b.framed = true := by simp only [List.all_cons, Bool.and_eq_true] at hbs; exact hbs.1
+          simp only [Prod.mk.injEq] at h; exact exchange_spec lib c tok b hcs hb o c' h.1
 
-private theorem clean_map_stale (cache : Cache) (h : Cache.clean cache = true) :
-    Cache.clean (cache.map fun c => { c with stale := true }) = true := by
-  cases cache <;> simp_all [Cache.clean]
+/-- the behaviours an attempt leaves unconsumed are a suffix of the script -/
+private theorem attempt_rest_framed (lib : Lib) (cache : Cache) (tok : Nat) (bs : List Beh)
+    (hbs : bs.all Beh.framed = true) : (attempt lib cache tok bs).2.all Beh.framed = true := by
+  cases cache with
+  | none =>
+    cases bs with
+    | nil => simp [attempt]
+    | cons b rest =>
+      simp only [List.all_cons, Bool.and_eq_true] at hbs
+      cases b <;> simp [attempt, hbs.2]
+  | some c =>
+    simp only [attempt]
+    split
+    · simp
+    · split
+      · exact hbs
+      · split
+        · simp
+        · cases bs with
+          | nil => simp
+          | cons b rest => simp only [List.all_cons, Bool.and_eq_true] at hbs; simp [hbs.2]
 
-/- ---------- property theorems ---------- -/
+private theorem safe_map_stale (cache : Cache) (h : Cache.safe cache = true) :
+    Cache.safe (cache.map fun c => { c with stale := true }) = true := by
+  cases cache with
+  | none => simp [Cache.safe]
+  | some c => simpa [Cache.safe, Conn.safe] using h
 
-/-- Each call either returns the result of its *own* request (its own token) or raises; and it leaves no
-    unread reply behind, so the next call starts from a clean connection — for every script. -/
-theorem C19_own_or_raise (cache : Cache) (tok : Nat) (bs : List Beh) (hc : Cache.clean cache = true) :
-    Cache.clean (call cache tok bs).2 = true ∧ ∀ t, (call cache tok bs).1 = .result t → t = tok := by
+/- ---------- no foreign results ---------- -/
+
+/-- Each call either returns the result of its *own* request (its own token) or raises; it leaves the cached
+    connection in a state from which no foreign reply can be returned, and the model describes it
+    (never "Unmodelled") — for every script of a peer that never sends a complete unsolicited reply
+    (`Beh.framed`: every fault of the property's alphabet, surplus bytes and hidden replies included). -/
+theorem C19_own_or_raise_partial (lib : Lib) (cache : Cache) (tok : Nat) (bs : List Beh)
+    (hc : Cache.safe cache = true) (hbs : bs.all Beh.framed = true) :
+    Cache.safe (call lib cache tok bs).2 = true ∧ (∀ t, (call lib cache tok bs).1 = .result t → t = tok) ∧
+    (call lib cache tok bs).1 ≠ .other "Unmodelled" := by
   unfold call
   simp only
-  have hc' : Cache.clean (if bs.head? = some Beh.down then cache.map (fun c => { c with stale := true }) else cache) = true := by
+  have hc' : Cache.safe (if bs.head? = some Beh.down then cache.map (fun c => { c with stale := true }) else cache) = true := by
     split
-    · exact clean_map_stale cache hc
+    · exact safe_map_stale cache hc
     · exact hc
   generalize (if bs.head? = some Beh.down then cache.map (fun c => { c with stale := true }) else cache) = cache' at hc'
-  cases h1 : attempt cache' tok bs with
+  cases h1 : attempt lib cache' tok bs with
   | mk a bs' =>
     cases a with
-    | done o c => exact attempt_spec cache' tok bs hc' o c bs' h1
+    | done o c => exact attempt_spec lib cache' tok bs hc' hbs o c bs' h1
     | retryable =>
       simp only
-      cases h2 : attempt none tok bs' with
+      have hbs' : bs'.all Beh.framed = true := by
+        have := attempt_rest_framed lib cache' tok bs hbs
+        rw [h1] at this
+        exact this
+      cases h2 : attempt lib none tok bs' with
       | mk a2 bs'' =>
         cases a2 with
-        | done o c => exact attempt_spec none tok bs' rfl o c bs'' h2
-        | retryable => simp [Cache.clean]
+        | done o c => exact attempt_spec lib none tok bs' rfl hbs' o c bs'' h2
+        | retryable => simp [Cache.safe]
 
-/-- Over a whole session (any fault script, any number of calls): the i-th call never returns anything but
-    the result of the i-th request — a fault never makes a later call return a stale or foreign response. -/
-theorem C19_session_own : ∀ (scripts : List (List Beh)) (cache : Cache) (tok : Nat), Cache.clean cache = true →
-    ∀ i t, (session cache tok scripts).1[i]? = some (.result t) → t = tok + i := by
+/-- Over a whole session (any fault script of framed behaviours, any number of calls): the i-th call never returns
+    anything but the result of the i-th request — a fault never makes a later call return a stale or foreign
+    response. -/
+theorem C19_session_own_partial (lib : Lib) : ∀ (scripts : List (List Beh)) (cache : Cache) (tok : Nat),
+    Cache.safe cache = true → scripts.all (fun bs => bs.all Beh.framed) = true →
+    ∀ i t, (session lib cache tok scripts).1[i]? = some (.result t) → t = tok + i := by
   intro scripts
   induction scripts with
-  | nil => intro cache tok _ i t h; simp [session] at h
+  | nil => intro cache tok _ _ i t h; simp [session] at h
   | cons bs rest ih =>
-    intro cache tok hc i t h
-    have hcall := C19_own_or_raise cache tok bs hc
+    intro cache tok hc hall i t h
+    simp only [List.all_cons, Bool.and_eq_true] at hall
+    have hcall := C19_own_or_raise_partial lib cache tok bs hc hall.1
     simp only [session] at h
     cases i with
     | zero =>
       simp only [List.getElem?_cons_zero, Option.some.injEq] at h
-      simpa using hcall.2 t h
+      simpa using hcall.2.1 t h
     | succ j =>
       simp only [List.getElem?_cons_succ] at h
-      have := ih (call cache tok bs).2 (tok + 1) hcall.1 j t h
+      have := ih (call lib cache tok bs).2 (tok + 1) hcall.1 hall.2 j t h
       omega
 
-/-- A non-200 reply surfaces as `TransportError` carrying that status, on a new or a healthy cached connection. -/
-theorem C19_transport_error (tok code : Nat) (rest : List Beh) (c : Conn)
-    (hs : c.stale = false) (hp : c.pending = false) :
-    (call none tok (.statusLen code :: rest)).1 = .transportError code ∧
-    (call none tok (.statusNoLenClose code :: rest)).1 = .transportError code ∧
-    (call none tok (.bodiless code :: rest)).1 = .transportError code ∧
-    (call (some c) tok (.statusLen code :: rest)).1 = .transportError code ∧
-    (call (some c) tok (.statusNoLenClose code :: rest)).1 = .transportError code ∧
-    (call (some c) tok (.bodiless code :: rest)).1 = .transportError code := by
-  simp [call, attempt, exchange, hs, hp]
+/-- The statement at full strength — every behaviour a peer can show, `okThenLate` included.  It is FALSE for the
+    library (`C19_unsolicited_reply_is_returned`): `_request` does not compare the id of the reply with the id it
+    sent, so a complete unsolicited reply left on a kept-alive connection is returned by the next call.  The
+    property's fault alphabet does not contain that behaviour; the `_partial` theorems above cover the alphabet
+    (and more), relative to the environment model. -/
+def C19_full_statement : Prop :=
+  ∀ (lib : Lib) (scripts : List (List Beh)) (cache : Cache) (tok : Nat), Cache.safe cache = true →
+    ∀ i t, (session lib cache tok scripts).1[i]? = some (.result t) → t = tok + i
 
-/-- Recovery: once faults stop (healthy scripts), from *every* clean cache state at most one further call
-    fails before a call succeeds — and from then on every healthy call succeeds. -/
-theorem C19_recovery (cache : Cache) (tok : Nat) (hc : Cache.clean cache = true) :
-    (call cache tok []).1 = .result tok ∨
-    (call (call cache tok []).2 (tok + 1) []).1 = .result (tok + 1) := by
+/-- The boundary of the claim, exactly: after an unsolicited complete reply carrying `k`, the next call returns `k`. -/
+theorem C19_unsolicited_reply_is_returned (lib : Lib) (k : Nat) :
+    (session lib none 0 [[.okThenLate k], []]).1 = [.result 0, .result k] := by
+  simp [session, call, attempt, exchange]
+
+/-- … whereas the same reply hidden behind surplus bytes of an over-long body is dropped with the connection
+    (close-on-error): the next call fails once, the one after succeeds with its own result. -/
+theorem C19_hidden_reply_is_dropped (lib : Lib) (code : ErrCode) (k : Nat) :
+    (session lib none 0 [[.statusLongLate code (some k)], [], []]).1 =
+      [.transportError code.n, .other (if lib.drain then "http-garbage" else "http-state"), .result 2] := by
+  cases lib with
+  | mk d c => cases d <;> simp [session, call, attempt, exchange, afterLength]
+
+/- ---------- non-200 replies ---------- -/
+
+/-- A reply with a status other than 200 — whatever its code, whether or not a length is announced, whatever
+    its body looks like (plain text, a JSON-RPC result for this very call, for another call, an error
+    object), bodiless, or longer than announced — surfaces as `TransportError` carrying that status; on a new
+    connection and on every cached connection on which nothing is unread (a stale one included: the request
+    is re-sent on a new connection). -/
+theorem C19_transport_error (lib : Lib) (cache : Cache) (tok : Nat) (rest : List Beh) (hg : Cache.good cache = true)
+    (code : ErrCode) (len : Bool) (body : Body) (nm : Bool) (r : Option Nat) :
+    (call lib cache tok (.status code len body :: rest)).1 = .transportError code.n ∧
+    (call lib cache tok (.bodiless nm len :: rest)).1 = .transportError (bodilessCode nm) ∧
+    (call lib cache tok (.statusLongNow code :: rest)).1 = .transportError code.n ∧
+    (call lib cache tok (.statusLongLate code r :: rest)).1 = .transportError code.n := by
   cases cache with
-  | none => left; simp [call, attempt, exchange]
+  | none => cases len <;> simp [call, attempt, exchange]
   | some c =>
-    have hin : c.inbound = [] := by simpa [Cache.clean] using hc
-    by_cases hs : c.stale = true
-    · left; simp [call, attempt, exchange, hs]
-    · by_cases hp : c.pending = true
-      · right; simp [call, attempt, exchange, hp, hs]
-      · left; simp [call, attempt, exchange, hp, hs, hin]
+    simp only [Cache.good, Bool.and_eq_true, Bool.not_eq_true', List.isEmpty_iff] at hg
+    obtain ⟨⟨hd, hi⟩, hp⟩ := hg
+    cases hs : c.stale <;> cases len <;> simp [call, attempt, exchange, hd, hi, hp, hs]
 
-theorem C19_healthy_stays (cache : Cache) (tok : Nat) (hc : Cache.clean cache = true)
-    (hok : (call cache tok []).1 = .result tok) :
-    (call (call cache tok []).2 (tok + 1) []).1 = .result (tok + 1) := by
+/-- The codes are not 200 (and the success test of the code is `== 200`, see C19Gen). -/
+theorem C19_error_codes_not_success (code : ErrCode) (nm : Bool) :
+    code.n ≠ successStatus ∧ bodilessCode nm ≠ successStatus := by
+  have h := code.h
+  simp only [bodyStatus, Bool.and_eq_true, bne_iff_ne, ne_eq] at h
+  refine ⟨h.1.1.1, ?_⟩
+  cases nm <;> decide
+
+/- ---------- recovery ---------- -/
+
+private theorem healthy_cases (b : Beh) (h : b.healthy = true) : b = .okKeep ∨ b = .okClose := by
+  cases b <;> simp_all [Beh.healthy]
+
+/-- From a connection state with nothing unread, a healthy exchange succeeds with its own result and leaves such a state. -/
+theorem C19_healthy_stays (lib : Lib) (cache : Cache) (tok : Nat) (bs : List Beh)
+    (hg : Cache.good cache = true) (hh : bs.all Beh.healthy = true) :
+    (call lib cache tok bs).1 = .result tok ∧ Cache.good (call lib cache tok bs).2 = true := by
+  have hhead : bs.head? ≠ some Beh.down := by
+    cases bs with
+    | nil => simp
+    | cons b rest =>
+      simp only [List.all_cons, Bool.and_eq_true] at hh
+      rcases healthy_cases b hh.1 with rfl | rfl <;> simp
   cases cache with
-  | none => simp [call, attempt, exchange]
+  | none =>
+    cases bs with
+    | nil => simp [call, attempt, exchange, Cache.good]
+    | cons b rest =>
+      simp only [List.all_cons, Bool.and_eq_true] at hh
+      rcases healthy_cases b hh.1 with rfl | rfl <;> simp [call, attempt, exchange, Cache.good]
   | some c =>
-    have hin : c.inbound = [] := by simpa [Cache.clean] using hc
-    by_cases hs : c.stale = true
-    · simp [call, attempt, exchange, hs]
-    · by_cases hp : c.pending = true
-      · simp [call, attempt, exchange, hp, hs] at hok
-      · simp [call, attempt, exchange, hp, hs, hin]
+    simp only [Cache.good, Bool.and_eq_true, Bool.not_eq_true', List.isEmpty_iff] at hg
+    obtain ⟨⟨hd, hi⟩, hp⟩ := hg
+    cases bs with
+    | nil => cases hs : c.stale <;> simp [call, attempt, exchange, Cache.good, hd, hi, hp, hs]
+    | cons b rest =>
+      simp only [List.all_cons, Bool.and_eq_true] at hh
+      rcases healthy_cases b hh.1 with rfl | rfl <;>
+        cases hs : c.stale <;> simp [call, attempt, exchange, Cache.good, hd, hi, hp, hs]
 
-/-- The bound is tight: after a bodiless status the next healthy call does fail once. -/
+private theorem healthy_shape (bs : List Beh) (hh : bs.all Beh.healthy = true) :
+    bs = [] ∨ (∃ r, bs = .okKeep :: r) ∨ (∃ r, bs = .okClose :: r) := by
+  cases bs with
+  | nil => exact Or.inl rfl
+  | cons b r =>
+    simp only [List.all_cons, Bool.and_eq_true] at hh
+    rcases healthy_cases b hh.1 with rfl | rfl
+    · exact Or.inr (Or.inl ⟨r, rfl⟩)
+    · exact Or.inr (Or.inr ⟨r, rfl⟩)
+
+/-- The first healthy exchange after faults: it succeeds with its own result or fails, and in both cases nothing
+    unread is left — from *every* state a fault sequence can leave behind (`Cache.safe`). -/
+theorem C19_first_after_faults (lib : Lib) (cache : Cache) (tok : Nat) (bs : List Beh)
+    (hc : Cache.safe cache = true) (hh : bs.all Beh.healthy = true) :
+    ((call lib cache tok bs).1 = .result tok ∨ ∃ k, (call lib cache tok bs).1 = .other k) ∧
+    Cache.good (call lib cache tok bs).2 = true := by
+  cases cache with
+  | none => exact ⟨Or.inl (C19_healthy_stays lib none tok bs rfl hh).1, (C19_healthy_stays lib none tok bs rfl hh).2⟩
+  | some c =>
+    obtain ⟨hd, hi⟩ := safe_parts c hc
+    rcases healthy_shape bs hh with rfl | ⟨r, rfl⟩ | ⟨r, rfl⟩ <;>
+      cases hs : c.stale <;> cases hp : c.pending <;> rcases hi with hi | ⟨rest, hi⟩ <;>
+        simp [call, attempt, exchange, Cache.good, hd, hs, hp, hi]
+
+private theorem session_healthy (lib : Lib) : ∀ (tail : List (List Beh)) (cache : Cache) (tok : Nat),
+    Cache.good cache = true → tail.all (fun bs => bs.all Beh.healthy) = true →
+    ∀ i, i < tail.length → (session lib cache tok tail).1[i]? = some (.result (tok + i)) := by
+  intro tail
+  induction tail with
+  | nil => intro _ _ _ _ i hi; simp at hi
+  | cons bs rest ih =>
+    intro cache tok hg hall i hi
+    simp only [List.all_cons, Bool.and_eq_true] at hall
+    have h1 := C19_healthy_stays lib cache tok bs hg hall.1
+    simp only [session]
+    cases i with
+    | zero => simp [h1.1]
+    | succ j =>
+      simp only [List.getElem?_cons_succ]
+      have := ih (call lib cache tok bs).2 (tok + 1) h1.2 hall.2 j (by simpa using hi)
+      rw [this]; congr 2; omega
+
+/-- Recovery: once faults stop, whatever state they left behind, at most one further call fails — the first —
+    before healthy exchanges (keep-alive or closing ones, in any order, any number) succeed; every later one
+    returns its own result. -/
+theorem C19_recovery (lib : Lib) (cache : Cache) (tok : Nat) (tail : List (List Beh))
+    (hc : Cache.safe cache = true) (hall : tail.all (fun bs => bs.all Beh.healthy) = true) :
+    ∀ i, 1 ≤ i → i < tail.length → (session lib cache tok tail).1[i]? = some (.result (tok + i)) := by
+  intro i h1 hi
+  cases tail with
+  | nil => simp at hi
+  | cons bs rest =>
+    simp only [List.all_cons, Bool.and_eq_true] at hall
+    have hf := C19_first_after_faults lib cache tok bs hc hall.1
+    simp only [session]
+    cases i with
+    | zero => omega
+    | succ j =>
+      simp only [List.getElem?_cons_succ]
+      have := session_healthy lib rest (call lib cache tok bs).2 (tok + 1) hf.2 hall.2 j (by simpa using hi)
+      rw [this]; congr 2; omega
+
+private theorem session_append (lib : Lib) : ∀ (a b : List (List Beh)) (cache : Cache) (tok : Nat),
+    (session lib cache tok (a ++ b)).1 =
+      (session lib cache tok a).1 ++ (session lib (session lib cache tok a).2 (tok + a.length) b).1 := by
+  intro a
+  induction a with
+  | nil => intro b cache tok; simp [session]
+  | cons bs rest ih =>
+    intro b cache tok
+    simp only [List.cons_append, session, List.length_cons]
+    rw [ih]
+    have : tok + 1 + rest.length = tok + (rest.length + 1) := by omega
+    rw [this]
+
+private theorem session_length (lib : Lib) : ∀ (a : List (List Beh)) (cache : Cache) (tok : Nat),
+    (session lib cache tok a).1.length = a.length := by
+  intro a
+  induction a with
+  | nil => intro _ _; simp [session]
+  | cons bs rest ih => intro cache tok; simp [session, ih]
+
+private theorem session_safe (lib : Lib) : ∀ (a : List (List Beh)) (cache : Cache) (tok : Nat),
+    Cache.safe cache = true → a.all (fun bs => bs.all Beh.framed) = true →
+    Cache.safe (session lib cache tok a).2 = true := by
+  intro a
+  induction a with
+  | nil => intro cache tok h _; simpa [session] using h
+  | cons bs rest ih =>
+    intro cache tok h hall
+    simp only [List.all_cons, Bool.and_eq_true] at hall
+    simp only [session]
+    exact ih _ _ (C19_own_or_raise_partial lib cache tok bs h hall.1).1 hall.2
+
+/-- Recovery after ANY finite fault sequence: a new proxy goes through arbitrary fault scripts (of framed
+    behaviours), then faults stop; of the healthy calls that follow at most the first fails, all later ones
+    return their own results. -/
+theorem C19_recovery_after_faults_partial (lib : Lib) (faults tail : List (List Beh))
+    (hf : faults.all (fun bs => bs.all Beh.framed) = true)
+    (hall : tail.all (fun bs => bs.all Beh.healthy) = true) :
+    ∀ i, 1 ≤ i → i < tail.length →
+      (session lib none 0 (faults ++ tail)).1[faults.length + i]? = some (.result (faults.length + i)) := by
+  intro i h1 hi
+  rw [session_append]
+  have hlen := session_length lib faults none 0
+  rw [List.getElem?_append_right (by omega)]
+  have hs := session_safe lib faults none 0 rfl hf
+  have := C19_recovery lib (session lib none 0 faults).2 (0 + faults.length) tail hs hall i h1 hi
+  simp only [hlen, Nat.add_sub_cancel_left]
+  simpa using this
+
+/-- The bound is tight: after a bodiless status (no length header, the code as it stands) the next healthy call does fail once. -/
 theorem C19_recovery_tight :
-    (session none 0 [[.bodiless 204], [], []]).1 = [.transportError 204, .other "http-state", .result 2] := by
+    (session ⟨true, false⟩ none 0 [[.bodiless false false], [], []]).1 =
+      [.transportError 204, .other "http-state", .result 2] := by
   decide
 
-/-- Tie to the source. -/
-theorem C19_gen_closeOnError : Generated.singleRequestClosesOnError = some true := by decide
-theorem C19_gen_drainWhenLength : Generated.singleRequestDrainsWhenLength = some true := by decide
-theorem C19_gen_emptyBodyNone : Generated.runRequestEmptyBodyNone = some true := by decide
-
 /- Non-vacuity -/
-example : (session none 7 [[.okClose], [.closeBeforeReply, .okKeep], [.statusLen 500], [.truncated], []]).1 =
+example : (session ⟨true, false⟩ none 7 [[.okClose], [.closeBeforeReply, .okKeep],
+      [.status ⟨500, by decide⟩ true .own], [.truncated], []]).1 =
     [.result 7, .other "disconnected", .transportError 500, .other "decode", .result 11] := by decide
 
+/-- the hypotheses of the `_partial` theorems are met by a script that leaves unread data behind -/
+example : ([[Beh.statusLongLate ⟨503, by decide⟩ (some 9)], [.okExtraNow 4], [.okClose]] : List (List Beh)).all
+    (fun bs => bs.all Beh.framed) = true := by decide
+example : (session ⟨true, false⟩ none 0 [[.statusLongLate ⟨503, by decide⟩ (some 9)]]).2 =
+    some { inbound := [.junk, .reply 9] } := by decide
+example : Cache.safe (some { inbound := [.junk, .reply 9] }) = true ∧ Cache.good (some { inbound := [.junk, .reply 9] }) = false := by decide
+example : ([[Beh.okClose], [], [.okKeep, .okClose]] : List (List Beh)).all (fun bs => bs.all Beh.healthy) = true := by decide
+
 end JRV.Props
+
